@@ -84,18 +84,22 @@ class BeamSplitter(Component):
     def get_unitary(self, n_modes: int) -> np.ndarray:  # noqa: D102
         self.validate()
         # Always calculate in double precision, whatever type holds the value
-        theta = np.arccos(float(self._reflectivity) ** 0.5)
+        reflectivity = float(self._reflectivity)
+        # With theta = arccos(sqrt(reflectivity)), found directly as arccos
+        # loses all precision when the reflectivity is very close to 1
+        cos_theta = reflectivity**0.5
+        sin_theta = (1 - reflectivity) ** 0.5
         unitary = np.identity(n_modes, dtype=complex)
         if self.convention == "Rx":
-            unitary[self.mode_1, self.mode_1] = np.cos(theta)
-            unitary[self.mode_1, self.mode_2] = 1j * np.sin(theta)
-            unitary[self.mode_2, self.mode_1] = 1j * np.sin(theta)
-            unitary[self.mode_2, self.mode_2] = np.cos(theta)
+            unitary[self.mode_1, self.mode_1] = cos_theta
+            unitary[self.mode_1, self.mode_2] = 1j * sin_theta
+            unitary[self.mode_2, self.mode_1] = 1j * sin_theta
+            unitary[self.mode_2, self.mode_2] = cos_theta
         elif self.convention == "H":
-            unitary[self.mode_1, self.mode_1] = np.cos(theta)
-            unitary[self.mode_1, self.mode_2] = np.sin(theta)
-            unitary[self.mode_2, self.mode_1] = np.sin(theta)
-            unitary[self.mode_2, self.mode_2] = -np.cos(theta)
+            unitary[self.mode_1, self.mode_1] = cos_theta
+            unitary[self.mode_1, self.mode_2] = sin_theta
+            unitary[self.mode_2, self.mode_1] = sin_theta
+            unitary[self.mode_2, self.mode_2] = -cos_theta
         return unitary
 
 
